@@ -201,4 +201,28 @@ def solveNormal (rows : List (Balls.Row α)) : V3 α × α :=
   let z := solveAug 4 (normalAug rows)
   (⟨getD0 z 0, getD0 z 1, getD0 z 2⟩, getD0 z 3)
 
+/-! approximate KKT certificate of an nnls answer (optimality of `scipy.optimize.nnls`); soundness:
+`nnls_kkt_sound` -/
+
+/-- `G = Σ w_i (p_i − c)` for weights aligned with the boundary points -/
+def nnlsG (bd : List (V3 α)) (c : V3 α) (w : List α) : V3 α :=
+  V3.sum ((List.zip w bd).map fun s => V3.smul s.1 (s.2 - c))
+
+/-- `Λ = Σ w_i` -/
+def nnlsWeight (bd : List (V3 α)) (w : List α) : α := Scalar.sum ((List.zip w bd).map (·.1))
+
+/-- gradient component of the nnls objective for the column of `p`: `(p − c)·G/r² + (Λ − 1)` -/
+def kktGradC (G : V3 α) (lam : α) (c : V3 α) (r2 : α) (p : V3 α) : α :=
+  V3.dot (p - c) G / r2 + (lam - lit 1)
+
+/-- `(min_j g_j, Σ_j w_j g_j, Σ_j w_j)` at the weights `w` (`min` of an empty list: `0`) -/
+def nnlsKkt (bd : List (V3 α)) (c : V3 α) (r2 : α) (w : List α) : α × α × α :=
+  let G := nnlsG bd c w
+  let lam := nnlsWeight bd w
+  let gs := bd.map (kktGradC G lam c r2)
+  let gmin := match gs with
+    | [] => lit 0
+    | x :: xs => xs.foldl Scalar.min x
+  (gmin, Scalar.sum ((List.zip w bd).map fun s => s.1 * kktGradC G lam c r2 s.2), lam)
+
 end BallSpec
